@@ -58,6 +58,9 @@ BulkInsert(lo, hi, step, vm, va, keepHandles) ==
   /\ CanBulk(lo, hi, step)
   /\ m' = BulkMap(lo, hi, step, vm, va)
   /\ des' = IF keepHandles THEN des ELSE Empty
+\* a run of deletions of the keys lo, lo + step, .. <= hi (present or not), in any order
+BulkWithout(lo, hi, step) == [x \in {y \in Dom : ~InBulk(y, lo, hi, step)} |-> m[x]]
+BulkDelete(lo, hi, step)  == step > 0 /\ m' = BulkWithout(lo, hi, step) /\ des' = Empty
 Delete(k)      == m' = Without(m, k) /\ des' = Empty          \* absent key: m unchanged
 Clear          == m' = Empty /\ des' = Empty
 \* a handle query issues (or re-issues) handle h for key k
